@@ -61,8 +61,37 @@ type Evidence struct {
 	Violations  int      `json:"violations"`
 }
 
+// manifestBounds copies the bounds this property's check states in MANIFEST.json (level_note and
+// the level text) into the evidence, next to the measured per-harness figures.
+func manifestBounds(prop, tier string) map[string]string {
+	b, err := os.ReadFile(filepath.Join(verifRoot(), "MANIFEST.json"))
+	if err != nil {
+		return nil
+	}
+	var m struct {
+		Checks []struct {
+			PropertyID   string `json:"property_id"`
+			LevelNote    string `json:"level_note"`
+			LevelClaimed struct {
+				Text string `json:"text"`
+			} `json:"level_claimed"`
+		} `json:"checks"`
+	}
+	if json.Unmarshal(b, &m) != nil {
+		return nil
+	}
+	for _, c := range m.Checks {
+		if c.PropertyID == prop {
+			return map[string]string{"tier": tier, "stated_in_manifest": c.LevelNote, "what_is_encoded": c.LevelClaimed.Text,
+				"per_harness": "see coverage.harnesses: paths, decisions, assertions checked per label, maximum path length"}
+		}
+	}
+	return nil
+}
+
 func (ev *Evidence) fill(results []*HarnessResult, ld *Loaded, cfg Config, validated, nviol int) {
 	c := &ev.Coverage
+	c.Bounds = manifestBounds(ev.PropertyID, ev.Tier)
 	funcs := map[string]bool{}
 	intr := map[string]bool{}
 	c.Queries = map[string]int64{}
